@@ -125,19 +125,16 @@ def psd_checks(which):
             check('periods-equal-frequencies', bool(np.isclose(g, f(a, c), rtol=1e-9)))
             # a band that starts at zero frequency contains the zero-frequency sample
             check('band-from-zero-includes-dc', bool(np.isclose(f(0, c) ** 2, f(0, a) ** 2 + f(a, c) ** 2, rtol=1e-9, atol=1e-14)
-                                                     and f(0, a) ** 2 >= p[H // 2, W // 2] * abs(r[H // 2, W // 2] - r[H // 2 - 1, W // 2]) ** 2 * 0.24))
+                                                     and f(0, a) ** 2 >= p[H // 2, W // 2] / (W * dx) / (H * dx) * 0.24))
         else:
             full = float(I.bandlimited_rms(r, p, flow=0, fhigh=None))
             w = I.make_window(z, dx, 'hann')
             target = np.sqrt(((z * w) ** 2).sum() / (w ** 2).sum())
-            # the trapezoid rule gives half weight to the outermost rows/columns: bound the discrepancy by their weight
-            df2 = abs(r[H // 2, W // 2] - r[H // 2 - 1, W // 2]) ** 2
-            edge = (p[0, :].sum() + p[-1, :].sum() + p[:, 0].sum() + p[:, -1].sum()) * df2
+            # the trapezoid rule gives half weight to the outermost rows/columns: bound the discrepancy by their weight; the cell of
+            # the frequency grid is dfx * dfy = 1/(W dx) * 1/(H dx), square data or not
             dfx, dfy = 1 / (W * dx), 1 / (H * dx)
-            if abs(dfx - dfy) < 1e-12:
-                check('full-band-reproduces-windowed-rms', bool(abs(full ** 2 - target ** 2) <= edge + 1e-12))
-            else:
-                check('full-band-finite', bool(np.isfinite(full)))
+            edge = (p[0, :].sum() + p[-1, :].sum() + p[:, 0].sum() + p[:, -1].sum()) * dfx * dfy
+            check('full-band-reproduces-windowed-rms', bool(abs(full ** 2 - target ** 2) <= edge + 1e-12))
     elif which == 'synthetic-surface-rms':
         samples = int(rng.integers(8, 33))
         target = float(rng.uniform(0.1, 20))
